@@ -46,7 +46,7 @@ def run(ctx, rep):
     rep.check(len(nh) == 1 and utext(nh[0].value) == "create_cheap_hash(self.name, STRATEGY_NAME_HASH_LENGTH)", "R1",
               key(si, None, "the strategy hash is truncated to STRATEGY_NAME_HASH_LENGTH"), si, nh[0] if nh else None)
     nhw = [f.qual for f, s, t, kind in all_stores(prog, "name_hash")]
-    rep.check(nhw == ["BaseStrategy.__init__"], "R1", "name_hash written only at construction", None, None, str(nhw))
+    rep.check(set(nhw) == {"BaseStrategy.__init__"}, "R1", "name_hash written only at construction", None, None, str(nhw))
     ch = prog.func("utils.create_cheap_hash")
     rets = [utext(x.value) for x in walk_nodes(ch.node.body, ast.Return)]
     sha = any(utext(c.func) == "hashlib.sha1" for c in walk_calls(ch.node.body))
@@ -104,7 +104,8 @@ def run(ctx, rep):
               "the exchange rejects customer references longer than 32 characters")
     idw = [(f.qual, utext(s.value)) for f, s, t, kind in all_stores(prog, "id")
            if res.type_of(t.value, f) is not None and res.type_of(t.value, f).is_subclass_of("BaseOrder")]
-    rep.check(sorted(idw) == [("BaseOrder.__init__", "str(uuid.uuid1().time)"), ("Trade.create_order_from_current", "order_id")],
+    rep.check(set(idw) <= {("BaseOrder.__init__", "str(uuid.uuid1().time)"), ("Trade.create_order_from_current", "order_id")}
+              and ("BaseOrder.__init__", "str(uuid.uuid1().time)") in idw,
               "R2", "order ids are written at creation and at adoption only", None, None, str(sorted(idw)))
 
     # ------------------------------------------------------------------ R3 charset
